@@ -203,6 +203,13 @@ var checkC20Table = register("C20/table", func(c tableCase) string {
 		for _, sh := range []uint{8, 16, 32} {
 			probes = append(probes, k+1<<sh, k+2<<sh, k-(1<<sh), k|1<<(sh-1))
 		}
+		// ... and integers that carry a small second number above the value, at every shift
+		// (a packed key of two enumeration values collides with exactly these)
+		for sh := uint(2); sh <= 40; sh++ {
+			for h := int64(1); h <= 4; h++ {
+				probes = append(probes, k+h<<sh)
+			}
+		}
 	}
 	ctxs := []wctx{{}, {S: m3.ScopeChanged, MS: m3.ModifiedScopeChanged, PR: m3.PrivilegesRequiredHigh, AV: m3.AttackVectorLocal, AC: m3.AttackComplexityHigh, UI: m3.UserInteractionRequired, C: m3.ConfidentialityImpactLow, I: m3.IntegrityImpactLow, A: m3.AvailabilityImpactLow},
 		{S: m3.ScopeUnchanged, MS: m3.ModifiedScopeNotDefined, PR: m3.PrivilegesRequiredLow}, {S: m3.ScopeChanged, MS: m3.ModifiedScopeUnchanged, PR: m3.PrivilegesRequiredLow}}
@@ -447,7 +454,7 @@ var codeAlphabet = []byte("NALPHRUCXFTWOMDSBE nlxdp01-\t")
 func TestC20(t *testing.T) {
 	c := begin(t, "C20")
 	defer c.end()
-	c.rec.F.Rule = "tables (complete): for all 22 v3 and 14 v2 metrics every code, its exported constant, printing, the validity predicates, every weight (PR per scope; every Modified metric at every own value x every base value; MPR over all 3 x 2 x 4 x 3 combinations of MS, S, MPR, PR) every integer in [-8, max+8] and integers aliasing a defined value under 8/16/32-bit truncation (no panic, print empty, same weight as the unknown value in every context; defined values under out-of-range contexts likewise); an ASCII character next to every two-byte rune in both orders (thorough: every valid UTF-8 string of at most 3 bytes) at every parser; long strings that start with a valid code (NUL / letter / blank fill at lengths 7..17, 255..257, 256+len, 512+len, 65536+len); codes: every string of length <= 3 over a 28-character alphabet (all code letters, lower case, digits, dash, space, tab) at every metric's parser plus rapid arbitrary strings; version: label parser/printer pairs of v3/metric and the legacy v3/version on generated labels and integers. Non-trivial = a string that is not a valid code of the metric (must parse to unknown), or a dependent-weight table; distinct by hash of (version, metric, string)."
+	c.rec.F.Rule = "tables (complete): for all 22 v3 and 14 v2 metrics every code, its exported constant, printing, the validity predicates, every weight (PR per scope; every Modified metric at every own value x every base value; MPR over all 3 x 2 x 4 x 3 combinations of MS, S, MPR, PR) every integer in [-8, max+8] and integers aliasing a defined value under 8/16/32-bit truncation or carrying a second small number above it at any shift from 2 to 40 (no panic, print empty, same weight as the unknown value in every context; defined values under out-of-range contexts likewise); an ASCII character next to every two-byte rune in both orders (thorough: every valid UTF-8 string of at most 3 bytes) at every parser; long strings that start with a valid code (NUL / letter / blank fill at lengths 7..17, 255..257, 256+len, 512+len, 65536+len); codes: every string of length <= 3 over a 28-character alphabet (all code letters, lower case, digits, dash, space, tab) at every metric's parser plus rapid arbitrary strings; version: label parser/printer pairs of v3/metric and the legacy v3/version on generated labels and integers. Non-trivial = a string that is not a valid code of the metric (must parse to unknown), or a dependent-weight table; distinct by hash of (version, metric, string)."
 	c.rec.F.Assumptions = []string{"weights compared with ==: both sides are the nearest double of the same decimal literal", "for the v2 base metrics only separation by IsUnknown is required (its sense is the negation of its name)"}
 	nviol := 0
 	if shard == 0 {
